@@ -491,6 +491,9 @@ func C14(c *core.Ctx) {
 		{"typedef cycle through a union member", map[string][]string{"t0": {"t1", "t2"}, "t1": {}, "t2": {"t0"}}},
 		{"typedef diamond through unions", map[string][]string{"t0": {"t1", "t2"}, "t1": {"t3"}, "t2": {"t3"}, "t3": {}}},
 		{"typedef cycle that no leaf uses", map[string][]string{"t0": {}, "t1": {"t2"}, "t2": {"t1"}}},
+		{"typedef that is a union of itself", map[string][]string{"t0": {"t0", "t0"}}},
+		{"typedef naming itself as second union member", map[string][]string{"t0": {"t1", "t0"}, "t1": {}}},
+		{"typedef reaching a self-union through a chain", map[string][]string{"t0": {"t1", "t2"}, "t1": {"t3"}, "t2": {}, "t3": {"t3", "t3"}}},
 		{"typedef of a missing type", map[string][]string{"t0": {"t1"}, "t1": {"nosuch"}}},
 	}
 	for i := 0; i < c.N(20, 400); i++ {
